@@ -75,6 +75,7 @@ def default_reset():
 def run_one_path(spec, tier, prefix, seed, known_active, deadline_s=120.0, timeout_ms=20000):
     """execute one path symbolically; returns PathResult (with .witness/.observations for validation)"""
     interp = get_interp([spec.module] + list(getattr(sys.modules[spec.module], "INTERPRET_MODULES", [])))
+    interp.symdict_functions = set(getattr(sys.modules[spec.module], "SYMDICT_FUNCTIONS", []))
     eng = Engine(prefix=prefix, timeout_ms=timeout_ms, seed=seed)
     E.set_current(eng)
     S = SymCtx(eng, interp, known_active)
